@@ -380,6 +380,26 @@ theorem C20_trie_old_leaf_fails :
       simp at h2
     | cons d r => simp [addVerb] at h2; cases r <;> simp [addVerb] at h2
 
+/-- **Trie completeness does NOT hold** — `C20_trie_sound` cannot be strengthened to "every matching template is
+    found". `dfs` is greedy: once `n.literals[component]` exists it commits to that child and never comes back to the
+    wildcard children. Through the real models (strict parser ▸ `Add` ▸ `Find`): with `GET /a/b` and `GET /*/c` added,
+    `Find GET /a/c` returns nothing although `/*/c` matches `/a/c`. The code agrees (corpus/C20 `trie` lines replay it
+    on `httprule.Trie`; verdict `trie-none-though-match`). Not a finding: the property asks soundness of the lookup only,
+    and `routing.PatternRouter` does not use this trie (it iterates gwbased patterns: `C03_route_iff` is first-match
+    complete). -/
+theorem C20_trie_incomplete_fails :
+    let add := fun (t : Trie) (s : Bytes) => match stParse s with
+      | .ok T => t.add [71, 69, 84] T
+      | .error _ => t
+    let t := add (add [] [47, 97, 47, 98]) [47, 42, 47, 99]
+    t.map (fun e => (e.keys, e.verb, e.tmpl)) =
+      [([.lit [97], .lit [98]], [], [47, 97, 47, 98]), ([.wild, .lit [99]], [], [47, 42, 47, 99])] ∧
+    t.find [71, 69, 84] [47, 97, 47, 99] = [] ∧
+    Matches ([Key.wild, Key.lit [99]].map Key.mkey) [] (splitOnByte cSlash (trimLeadingSlash [47, 97, 47, 99])) ∧
+    -- without the competing literal the same template IS found
+    (add [] [47, 42, 47, 99]).find [71, 69, 84] [47, 97, 47, 99] = add [] [47, 42, 47, 99] := by
+  refine ⟨by decide, by decide, ⟨[[97], [99]], by decide, by decide⟩, by decide⟩
+
 /-! ### gwbased: legacy `accept` clause (kept in the code for the token-level unit test, disabled by `Parse`) -/
 
 /-- With the legacy clause `t != string(term) && t != "/"` the template "//" is the route "/*" (D19). -/
